@@ -12,7 +12,10 @@ EXTENDS Unmarshal, Json
 CONSTANTS MaxFields, DoExport
 VARIABLES c
 
-PlainIds == <<"f_name", "f_count", "f_flag", "f_tags", "f_items", "f_env", "f_extra", "f_anyv", "f_sub", "f_psub", "f_subs", "f_hid", "f_ratio", "f_camel">>
+PlainIdsAll == <<"f_name", "f_count", "f_flag", "f_tags", "f_items", "f_env", "f_extra", "f_anyv", "f_sub", "f_psub", "f_subs", "f_hid", "f_ratio", "f_camel">>
+\* structs of three fields are drawn from the fields that interact (aliases, appends, pointers, catch-alls): the full pool cubed is out of reach
+PlainIdsCore == <<"f_name", "f_count", "f_tags", "f_items", "f_anyv", "f_psub", "f_camel">>
+PlainIds == IF MaxFields >= 3 THEN PlainIdsCore ELSE PlainIdsAll
 InlineIds == {"none", "i_map", "i_str", "i_str2"}
 \* all keys, in the fixed order documents list them
 KeyOrder == <<"name", "label", "title", "count", "n", "flag", "tags", "labels", "items", "env", "extra", "anyv", "av", "sub", "psub", "ps", "subs",
